@@ -168,6 +168,7 @@ Definition pstep (c : cfg) (st : pstate) (pe : pevent) : option pstate :=
       (* ---- WAL ---- *)
       | Create (Wal f) =>
           ok ((f =? walcur st + 1) && is_nil (todo st) && negb (memf (Wal f) (dir s))
+              && sized s (Wal (walcur st))
               && imp (sync_writes c) (log_synced s (Wal (walcur st))))
              (mkP s' (units st) (pend st) (todo st) (acked st) f (vlogcur st)
                   (nflushed st) (nflushed_s st) (live st) (live_s st) (usedtabs st))
@@ -237,6 +238,8 @@ Definition pstep (c : cfg) (st : pstate) (pe : pevent) : option pstate :=
               else
                 ok (synced s Manifest && tables_ready
                     && forallb (fun id => memf (Sst id) (dur s)) news
+                    && forallb (fun id => tab_mem id (live st)) olds
+                    && forallb (fun id => negb (tab_mem id (live st))) news
                     && compact_okb (sst_cells s olds) (sst_cells s news))
                    (mkP s' (units st) (pend st) (todo st) (acked st) (walcur st) (vlogcur st)
                         (nflushed st) (nflushed_s st) live' (live_s st) (usedtabs st))
